@@ -295,8 +295,9 @@ def history_cases(ctx, env_ctl, n):
 # ----------------------------------------------------------------------------- frames
 def gen_prefixes(rng):
     # folder prefixes, and prefixes that run past the last '/' (one file, or a family of names in a folder)
+    # (also prefixes anchored at a directory boundary by a trailing '/', and spellings a path normaliser would alter)
     pool = ["/app", "/app/vendor", "/usr/lib", "/opt/x", "/srv", "/a", "lib", "/app/vendor/x", "/app/ma", "/srv/w", "/app/vendor/gen_",
-            "/opt/x/y.py"]
+            "/opt/x/y.py", "/app/", "/app/vendor/", "/opt/x/", "/srv/", "/a/", "/app//vendor", "/opt/./x"]
     return [rng.choice(pool) for _ in range(rng.choice([0, 1, 1, 2, 3]))]
 
 
@@ -308,7 +309,8 @@ def frame_cases(ctx, env_ctl, n):
     lits, cj = [], []
     files = ["/app/main.py", "/app/other.py", "/app/vendor/gen_pb2.py", "/app/vendor/lib.py", "/usr/lib/python3/x.py", "/opt/x/y.py", "/opt/x/z.py",
              "/srv/w.py", "/srv/x.py", "/a", "/ab/c.py",
-             "lib/m.py", sys.exec_prefix + "/lib/os.py", "/app/vendor/x/z.py", "<string>", ""]
+             "lib/m.py", sys.exec_prefix + "/lib/os.py", "/app/vendor/x/z.py", "<string>", "", "/app.py", "/application/main.py",
+             "/app/vendored/v.py", "/opt/xy/q.py", "/srv.py"]
 
     class Src:
         def __init__(self, cfg):
